@@ -82,7 +82,7 @@ func ldsNeedsPush(proxy *model.Proxy, req *model.PushRequest) bool {
 	// Optimization: Routers don't need LDS updates for headless endpoint changes.
 	// However, if ServiceUpdate is also present, the service definition changed
 	// (ports, labels, etc.) and we need to push LDS.
-	headlessOnly := proxy.Type == model.Router && req.Reason.Has(model.HeadlessEndpointUpdate) && !req.Reason.Has(model.ServiceUpdate)
+	headlessOnly := proxy.Type == model.Router && headlessEndpointUpdateOnly(req)
 	sawServiceEntry := false
 
 	for config := range req.ConfigsUpdated {
